@@ -231,9 +231,9 @@ MANIFEST = {
                  "multi-message txs, failing executions): C07_accept_iff_nonce_and_chain / C07_accept_multi_message (accepted iff "
                  "signature recovers, carried chain id is this chain's, nonce == running sequence; atomic per tx), "
                  "C07_sequence_plus_one_per_accepted (+1 per accepted message whatever execution does; the msg-server bracket "
-                 "SetNonce(n)..SetNonce(n+1) reproduces the ante value), C07_nonce_order_shared_sequence (per account the accepted "
+                 "pre-execution SetNonce (creation -> n, call -> n+1 since /repo 80f60c9; or n for both) .. SetNonce(n+1) reproduces the ante value), C07_nonce_order_shared_sequence (per account the accepted "
                  "sequence numbers are s0,s0+1,... across both tx families), C07_at_most_once (no tx hash executes twice), "
-                 "C07_create_address (deployed at the address of signer and TRANSACTION nonce), C07_only_own_txs_move_sequence (a tx moves only "
+                 "C07_create_address (deployed at the address of signer and TRANSACTION nonce for every pre-execution rule that resets a creation to n; C07_pre_reset_if_single_increment_refuted), C07_only_own_txs_move_sequence (a tx moves only "
                  "its signers' sequences whatever it pays/calls/selfdestructs to and whatever the auth account type - EthAccount, BaseAccount, "
                  "vesting - for every loader handing the stored sequence to the StateDB; C07_eth_only_loader_refuted for the loader that "
                  "does so for EthAccounts only; the loader of /repo is re-extracted: C07_current_loader_faithful). The model runs the decorator chain "
